@@ -29,7 +29,9 @@ EXPLANATION = (
 )
 ASSUMPTIONS = ["the solver returns an optimum of the problem it is given", "cobralint/lpmodel.py models Model.objective, add_cons_vars and the context roll-back"]
 
-NATIVE = (Lin, Var, Cons, Obj, Problem, Container, SolverStub, RxnLP, ReactionList, SolutionLP, ModelLP, Formulation)
+from ..framemodel import Ser as _Ser, Index as _Index
+
+NATIVE = (_Ser, _Index, Lin, Var, Cons, Obj, Problem, Container, SolverStub, RxnLP, ReactionList, SolutionLP, ModelLP, Formulation)
 FOLLOW = [
     "cobra.flux_analysis.parsimonious.pfba",
     "cobra.flux_analysis.parsimonious.add_pfba",
@@ -49,7 +51,9 @@ def _get_solution(it, ev, c, args, kwargs):
         raise Unsupported("get_solution before any solve")
     f, v = model.solves[-1]
     now = Formulation(model)
-    sol = SolutionLP(f, list(model.reactions) if reactions is None else list(reactions), v, model.fluxes_of(len(model.solves)))
+    table = model.fluxes_of(len(model.solves))
+    ids = list(reversed(list(table)))  # a series; its order is not that of model.reactions
+    sol = SolutionLP(f, list(model.reactions) if reactions is None else list(reactions), v, _Ser([table[i] for i in ids], ids))
     sol.stale = (now.objective, [c.normal() for c in now.constraints], now.bounds) != (f.objective, [c.normal() for c in f.constraints], f.bounds)
     return sol
 
@@ -226,7 +230,11 @@ def check_pfba(ctx) -> None:
 
 # ---------------------------------------------------------------------------------------- MOMA / ROOM
 def _reference(model: ModelLP) -> SolutionLP:
-    fluxes = {"R_a": -2.75, "R_b": 3.5, "R_c": 0.0, "R_d": 1.625}
+    # a pandas-like series, deliberately not in the order of model.reactions (e.g. a solution of the wild type used
+    # with a model from which a reaction was removed and re-added): fluxes must be looked up by id
+    from ..framemodel import Ser
+
+    fluxes = Ser([1.625, 0.0, -2.75, 3.5], ["R_d", "R_c", "R_a", "R_b"])
     return SolutionLP(Formulation(model), list(model.reactions), 4.1875, fluxes)
 
 
